@@ -7,6 +7,7 @@
 #pragma once
 
 #include <pika/config.hpp>
+#include <pika/config/verif_hooks.hpp>
 
 #if defined(PIKA_HAVE_STDEXEC)
 # include <pika/execution_base/stdexec_forward.hpp>
@@ -261,6 +262,7 @@ namespace pika::when_all_impl {
 
             void finish() noexcept
             {
+                PIKA_VERIF_POINT(::pika::verif::when_all_finish, this);
                 if (--predecessors_remaining == 0)
                 {
                     if (!set_stopped_error_called) { set_value_helper(ts); }
